@@ -250,7 +250,7 @@ pub fn record(rng: &mut SmallRng, n_events: usize, out: &mut dyn Write) {
         "parse_bool"];
     let mut left = n_events;
     while left > 0 {
-        let nchars = rng.gen_range(0..=40);
+        let nchars = if rng.gen_range(0..25) == 0 { rng.gen_range(256..=300) } else { rng.gen_range(0..=40) };
         let k = rng.gen_range(2..=alpha.len());
         let mut s = String::new();
         for _ in 0..nchars {
